@@ -129,7 +129,12 @@ func (lh *WorkerLoop) handleUpdateState(receivedBlockWithProof *blockWithProof) 
 	}
 }
 
-func (lh *WorkerLoop) ValidateBlockConsensus(ctx context.Context, block interfaces.Block, blockProofBytes []byte, prevBlock interfaces.Block, maybePrevBlockProofBytes []byte, softVerify bool) error {
+func (lh *WorkerLoop) ValidateBlockConsensus(ctx context.Context, block interfaces.Block, blockProofBytes []byte, prevBlock interfaces.Block, maybePrevBlockProofBytes []byte, softVerify bool) (err error) {
+	defer func() {
+		if r := recover(); r != nil { // size fields pointing outside the buffer make the wire-format reader panic
+			err = errors.Errorf("ValidateBlockConsensus: malformed blockProof: %v", r)
+		}
+	}()
 	if ctx.Err() != nil {
 		return errors.New("context canceled")
 	}
